@@ -881,6 +881,12 @@ func (b *Builder) callTermAt(v ssa.Value, c *ssa.CallCommon, at ssa.Instruction,
 		}
 		args[0], args[1] = unconv(args[0]), unconv(args[1])
 		base := args[0]
+		// append(make([]byte, n-len(x), …), x...) is x left-padded with zeros to n bytes (as FillBytes does)
+		if base.Op == "makeslice" && len(base.Args) == 2 && base.Args[0].Op == "bin" && base.Args[0].Name == "-" && len(base.Args[0].Args) == 2 {
+			if l := base.Args[0].Args[1]; l.Op == "len" && len(l.Args) == 1 && l.Args[0].String() == args[1].String() {
+				return &Term{Op: "call", Name: "leftpad", V: v, Args: []*Term{args[1], base.Args[0].Args[0]}}
+			}
+		}
 		switch {
 		case base.Op == "concat":
 			return &Term{Op: "concat", V: v, Args: append(append([]*Term{}, base.Args...), args[1])}
